@@ -7,11 +7,14 @@ import (
 	"crypto/sha256"
 	"fmt"
 	"sort"
+	"strings"
 	"time"
 
 	"github.com/IBM/TSS/mpc/bls"
 	"verif/cryptolib"
+	"verif/explore"
 	"verif/harness"
+	"verif/shim/sched"
 )
 
 const haveBLS = true
@@ -259,4 +262,72 @@ func blsCase(n, t int) harness.Case {
 		}
 		c.Sample("bls", map[string]interface{}{"n": n, "t": t})
 	}}
+}
+
+// concurrentBLSCases: two threads aggregate + verify with one bls.Verifier (genuine / altered digest).
+func concurrentBLSCases() []harness.Case {
+	return []harness.Case{{ID: "concurrent-verify/bls", Run: func(c *harness.C) {
+		c.Exec("[concurrent-verify] bls setup")
+		w, err := newBLS(3, 2)
+		if err != nil {
+			c.Violation("setup", "c09-setup", err.Error(), nil)
+			return
+		}
+		d := sha256.Sum256([]byte("c09-conc"))
+		sub := []uint16{1, 2}
+		var sigs [][]byte
+		for _, id := range sub {
+			sg, _ := w.signers[id].Sign(nil, d[:])
+			sigs = append(sigs, sg)
+		}
+		other := sha256.Sum256([]byte("c09-conc-other"))
+		c.NewRaceReports()
+		var verdicts [2]bool
+		var trace []string
+		reported := map[string]bool{}
+		e := &explore.Explorer{Stop: c.Expired}
+		e.Run = func(r *explore.Recorder) {
+			c.Exec(fmt.Sprintf("[concurrent-verify] bls %v", r.Prefix))
+			rec := c.Bubble(func() {
+				sc := sched.New()
+				defer sc.Close()
+				digests := [2][]byte{d[:], other[:]}
+				for t := 0; t < 2; t++ {
+					t := t
+					sc.Go(fmt.Sprintf("V%d", t), func() {
+						sched.Yield()
+						verdicts[t] = w.verdict(w.v, digests[t], sigs, sub)
+					})
+				}
+				sc.Run(r)
+				sc.WaitAll()
+				trace = sc.Trace
+			})
+			if rec != nil && !harness.IsLeakPanic(rec) {
+				panic(rec)
+			}
+		}
+		e.Visit = func(r *explore.Recorder) {
+			c.Add("executions", 1)
+			rp := map[string]interface{}{"concurrent": "bls", "choices": explore.Trim(r.Choices())}
+			for _, rr := range c.NewRaceReports() {
+				if rr.Frames[0] == "" || rr.Frames[1] == "" {
+					continue
+				}
+				if !reported[rr.Signature] {
+					reported[rr.Signature] = true
+					c.Violation("same-verdict (verification has no side effects on shared state)", "c09-"+rr.Signature, fmt.Sprintf("two threads verifying with one bls.Verifier race between %s and %s", rr.Frames[0], rr.Frames[1]), rp)
+				}
+			}
+			if (verdicts[0] || !verdicts[1]) && !reported["verdict"] {
+				reported["verdict"] = true
+				c.Violation("same-verdict", "c09-bls-concurrent-verdict-differs", fmt.Sprintf("genuine rejected=%v, other digest rejected=%v when verified at the same time with one verifier", verdicts[0], verdicts[1]), rp)
+			}
+			c.Outcome("concurrent-bls|" + strings.Join(trace, ";"))
+		}
+		if c.Replay != nil {
+			return
+		}
+		e.Explore(nil, nil, 1)
+	}}}
 }
